@@ -446,6 +446,20 @@ func applySetUpdates(dir string, opts GlobalOptions, id string, updates map[stri
 			}
 		}
 
+		// A task may only be moved into an existing, unpruned epic ("" unassigns).
+		if epicID, hasEpic := updates["epic"]; hasEpic && epicID != "" {
+			if _, ok := graph.Tombstones[epicID]; ok {
+				return prunedErr(epicID)
+			}
+			epic, ok := graph.Tasks[epicID]
+			if !ok {
+				return fmt.Errorf("unknown epic id %s", epicID)
+			}
+			if !isEpic(epic) {
+				return fmt.Errorf("task %s is not an epic", epicID)
+			}
+		}
+
 		now := time.Now().UTC()
 
 		// Build events using pure function, passing I/O-dependent body resolver
